@@ -145,7 +145,12 @@ def Ctx.get : Ctx → Name → Option Value
     | some v => some v
     | none => Ctx.get C x
 
-/-- innermost registration of the function name, with the context it was registered in
+/-- the key a function name is registered / looked up under: "regardless of convention used, all
+    trailing underscores are stripped from the names" (`Context.get_functions`: `name.rstrip('_')`).
+    Apart from that a function name is DATA: no other relation between names makes two functions one. -/
+def fnKey (f : Name) : Name := Context.rstripUnderscore f
+
+/-- innermost registration of the function KEY, with the context it was registered in
     (= the context its lambda captured) -/
 def Ctx.getFun : Ctx → Name → Option (Expr × Ctx)
   | [], _ => none
@@ -698,7 +703,7 @@ def callFn (ev : Ev) (C : Ctx) (f : Fn) (args : List Expr) (kw : List (Expr × E
       | [nameE, body] => do
         let no ← ev C nameE
         match no with
-        | .val (.str name) => pure (.ctx ({ funs := [(name, body)] } :: C))
+        | .val (.str name) => pure (.ctx ({ funs := [(fnKey name, body)] } :: C))
         | o => if isLazy o then .error .outOfDomain else .error .noFunction
       | _ => .error .noFunction
   | .list =>
@@ -776,7 +781,7 @@ def step (ev : Ev) (C : Ctx) : Expr → R Obj
   | .member e name => do let r ← ev C e; memberOf r name
   | .call f args kw => callFn ev C f args kw
   | .ucall f args kw =>
-    match C.getFun f with
+    match C.getFun (fnKey f) with
     | none => .error .unknownFunction
     | some (body, D) => do
       let names ← kwNames kw
